@@ -1,5 +1,6 @@
 import LasioModel.Writer
 import LasioProofs.Lemmas.WriterLemmas
+import LasioProofs.Lemmas.RoundTripHeader
 /-
 C03 — header round trip: what `write` lays out (version 1.2 / 2.0) the reader parses back to the same items.
 Property theorems only; helper lemmas live in LasioProofs/Lemmas/WriterLemmas.lean; the header-line grammar
@@ -376,5 +377,401 @@ example : formatItem .descrValue ⟨6, 25⟩
 #print axioms C03_other
 #print axioms C03_counterexample_other_trailing_newline
 #print axioms C03_example_conf
+
+end Lasio.Wr
+
+namespace Lasio.Wr
+
+/-! ## the file-level clause: the whole-file reader model (`Lasio.Rd`) inverts the header writer model -/
+
+/-- no ~Other line may look like a section title (`line.strip().startswith("~")`) -/
+def OtherOK (t : Str) : Prop := ∀ l ∈ splitlines t, (strip l).head? ≠ some '~'
+
+/-- every ~Other line is stripped already (the reader stores `line.strip()`) -/
+def OtherStripped (t : Str) : Prop := ∀ l ∈ splitlines t, strip l = l
+
+/-- the part of `hmark`/`TextConf` that keeps an item line from being taken for a title -/
+def NoTitleMnem (it : WItem) : Prop := it.orig ≠ [] ∧ strip it.orig = it.orig ∧ it.orig.head? ≠ some '~'
+
+theorem NoTitleMnem.of_conf {kind : SecName} {it : WItem} (h : TextConf kind it)
+    (hm : it.orig.head? ≠ some '#' ∧ it.orig.head? ≠ some '~') : NoTitleMnem it :=
+  ⟨h.mnem_ne, h.mnem_strip, hm.2⟩
+
+theorem standardizeItems_orig (items : List WItem) (P : Str → Prop) (h : ∀ it ∈ items, P it.orig) :
+    ∀ it ∈ standardizeItems items, P it.orig := by
+  intro it hit
+  obtain ⟨y, hy, rfl⟩ := List.mem_map.mp hit
+  exact h y hy
+
+/-- **The written header is a well-formed document of the reader model**: `headerLines` is the five written
+sections laid flat (title line `title.ljust(width, "-")`, then the body), every title line is recognised as a title by
+the reader's title scan and no body line is — so `C05_windows` / `C05_read_rendered` apply.  Item lines: the mnemonic
+is non-empty, stripped and does not start with '~' (`NoTitleMnem`, a part of `TextConf` + `hmark`); ~Other lines:
+`OtherOK`. -/
+theorem C03_written_document_wellformed (version : String) (wrap : Option Bool) (w : Nat) (las las' : WLas)
+    (lines : List Str) (h : headerLines version wrap w las = .ok (lines, las'))
+    (hmv : ∀ it ∈ RH.versionCopy version wrap las, NoTitleMnem it)
+    (hmw : ∀ it ∈ las.well, NoTitleMnem it) (hmc : ∀ it ∈ las.curves, NoTitleMnem it)
+    (hmp : ∀ it ∈ las.params, NoTitleMnem it) (ho : OtherOK las.other) :
+    ∃ secs, headerSections version wrap las = .ok (secs, las') ∧
+      lines = Rd.flat (RH.written w secs) ∧ Rd.WellFormed (RH.written w secs) ∧
+      Rd.findSections lines = Rd.docWindows (RH.written w secs) 0 := by
+  unfold headerLines at h
+  cases hs : headerSections version wrap las with
+  | error e => rw [hs] at h; cases h
+  | ok r =>
+    obtain ⟨secs, l2⟩ := r
+    rw [hs] at h
+    simp only [Except.ok.injEq, Prod.mk.injEq] at h
+    obtain ⟨h1, h2⟩ := h
+    subst h2
+    obtain ⟨_, lv, lw, lc, lp, wv, ww, wc, wp, rfl, _⟩ := RH.headerSections_ok version wrap las l2 secs hs
+    have hw : Rd.WellFormed (RH.written w [("~Version ", lv), ("~Well ", lw), ("~Curve Information ", lc),
+        ("~Params ", lp), ("~Other ", splitlines las.other)]) := by
+      apply RH.wellFormed_written
+      · exact RH.writeSection_notitle _ _ _ _ wv hmv
+      · exact RH.writeSection_notitle _ _ _ _ ww (standardizeItems_orig las.well
+          (fun o => o ≠ [] ∧ strip o = o ∧ o.head? ≠ some '~') hmw)
+      · exact RH.writeSection_notitle _ _ _ _ wc hmc
+      · exact RH.writeSection_notitle _ _ _ _ wp (standardizeItems_orig las.params
+          (fun o => o ≠ [] ∧ strip o = o ∧ o.head? ≠ some '~') hmp)
+      · intro b hb
+        rw [Rd.isTitle_eq, RH.startsTilde_false_iff]
+        exact ho b hb
+    have hl : lines = Rd.flat (RH.written w [("~Version ", lv), ("~Well ", lw), ("~Curve Information ", lc),
+        ("~Params ", lp), ("~Other ", splitlines las.other)]) := by
+      rw [← h1, RH.flat_written]
+    refine ⟨_, rfl, hl, hw, ?_⟩
+    have := Rd.C05_windows [] _ (by simp) hw
+    simpa [hl] using this
+
+
+/-- **Per line, the whole-file reader computes what `readLine`/`readItem` compute.**  `kind` one of the four item
+sections, `v` a version whose table has that section (1.2 and 2.0 do).  The reader derives from the written title
+`~Version ---…` / `~Well ---…` / `~Curve Information ---…` / `~Params ---…` (any header width `w`): section type
+"Header items", the key "Version" / "Well" / "Curves" / "Parameter", and the parser object `p` (`metadata` over the
+version's order table for ~V/~W, `curves`, `params`); with that parser `Rd.lineRes` on ANY line is `Wr.readLine`
+(skip ↦ skip, stop ↦ title, error ↦ bad, item ↦ the same name, unit, raw value, description): both are
+`read_header_line` + the case map + the two-step order lookup + `strip_brackets`. -/
+theorem C03_rd_item_eq_wr_item (o : Rd.ReadOpts) (v : String) (kind : SecName) (hk : kind ≠ .other)
+    (hso : (sectionOrders v (secKey kind)).isSome = true) (ver : Rd.VerVal) (w : Nat) :
+    Rd.sectionType (Rd.sline (titleLine (RH.titleOf kind) w)) = .items ∧
+    Rd.routeKey (Rd.sline (titleLine (RH.titleOf kind) w)) ver = .ok (RH.keyOf kind) ∧
+    ∃ p, Rd.mkParser (Rd.lineStrip (titleLine (RH.titleOf kind) w)) (.known v.toList) = .ok p ∧
+      ∀ line, Rd.lineRes o p line = RH.cvtRes (readLine v kind (RH.cvtCase o.mnemonicCase) line) := by
+  obtain ⟨h1, h2, h3⟩ := RH.written_title_dispatch kind hk v ver w
+  exact ⟨h1, h2, _, h3, fun line => RH.lineRes_eq o v kind hk hso line⟩
+
+/-- on a written item line the whole-file reader's per-line function returns the item: original mnemonic under the
+case map, unit, value text, description -/
+theorem C03_rd_written_line (o : Rd.ReadOpts) (v : String) (kind : SecName) (ord : Order) (W : Widths) (it : WItem)
+    (hk : kind ≠ .other) (hw : orderOf v (secKey kind) it.orig = .ok ord) (hconf : TextConf kind it)
+    (hpad : 1 ≤ W.middle - it.unit.length - (rhsOf ord it).length)
+    (hmark : it.orig.head? ≠ some '#' ∧ it.orig.head? ≠ some '~') :
+    Rd.lineRes o (RH.parserOf v kind) (formatItem ord W it) =
+      .item ⟨caseMap (RH.cvtCase o.mnemonicCase) it.orig, it.unit, it.value.text, it.descr⟩ := by
+  have hso : (sectionOrders v (secKey kind)).isSome = true := by
+    unfold orderOf at hw
+    cases h : sectionOrders v (secKey kind) with
+    | none => rw [h] at hw; cases hw
+    | some x => rfl
+  have ho : ord = .descrValue → kind ≠ .curves := by
+    rintro rfl rfl
+    exact absurd (orderOf_fixed v "Curves" (Or.inl rfl) _ _ hw) (by decide)
+  rw [RH.lineRes_eq o v kind hk hso,
+    readLine_formatItem v kind (RH.cvtCase o.mnemonicCase) ord W it hk hw (C03_conf_of_text kind ord it hconf ho)
+      hconf.unit_notnum hconf.unit_nobr (fun _ => hpad) hmark]
+  rfl
+
+/-- what the reader returns for a written item -/
+def rdExpected (o : Rd.ReadOpts) (it : WItem) : Rd.RItem :=
+  ⟨caseMap (RH.cvtCase o.mnemonicCase) it.orig, it.unit, it.value.text, it.descr⟩
+
+/-- the reader finds the VERS item of the written ~Version section: exactly one item of that section has the
+(case-mapped, useful) mnemonic VERS in the sense of `SectionItems.__contains__`, and its value is the version -/
+def VersOK (o : Rd.ReadOpts) (version : String) (vcopy : List WItem) : Prop :=
+  ∃ x, vcopy.filter (fun it => Rd.mcmp (o.mnemonicCase != .preserve)
+      (Rd.usefulMn (caseMap (RH.cvtCase o.mnemonicCase) it.orig)) "VERS".toList) = [x] ∧
+    x.value.text = version.toList
+
+/-- **File-level round trip (header).**  The lines `write` emits before the data section, read by the whole-file
+reader (`find_sections_in_file` + the section loop of `LASFile.read`): every section is found, read with the parser of
+its kind under the version its VERS item announces, and stored under "Version", "Well", "Curves", "Parameter" with
+exactly the written items in order (original mnemonic under the case map, unit, value text, description), and the
+stripped ~Other lines joined by '\n' under "Other".  The written items are: the ~Version copy with WRAP and VERS
+substituted (`RH.versionCopy`), the standardised ~Well and ~Parameter items, the ~Curves items. -/
+theorem C03_file (o : Rd.ReadOpts) (version : String) (wrap : Option Bool) (w : Nat) (las las' : WLas)
+    (lines : List Str) (h : headerLines version wrap w las = .ok (lines, las'))
+    (hcv : ∀ it ∈ RH.versionCopy version wrap las, TextConf .version it)
+    (hcw : ∀ it ∈ standardizeItems las.well, TextConf .well it)
+    (hcc : ∀ it ∈ las.curves, TextConf .curves it)
+    (hcp : ∀ it ∈ standardizeItems las.params, TextConf .parameter it)
+    (hmv : ∀ it ∈ RH.versionCopy version wrap las, it.orig.head? ≠ some '#' ∧ it.orig.head? ≠ some '~')
+    (hmw : ∀ it ∈ las.well, it.orig.head? ≠ some '#' ∧ it.orig.head? ≠ some '~')
+    (hmc : ∀ it ∈ las.curves, it.orig.head? ≠ some '#' ∧ it.orig.head? ≠ some '~')
+    (hmp : ∀ it ∈ las.params, it.orig.head? ≠ some '#' ∧ it.orig.head? ≠ some '~')
+    (hvers : VersOK o version (RH.versionCopy version wrap las))
+    (ho : OtherOK las.other) :
+    ∃ st, Rd.processSections o lines (Rd.findSections lines) Rd.RState.init = .ok st ∧
+      st.sections =
+        [(Rd.kVersion, some (.items ((RH.versionCopy version wrap las).map (rdExpected o)))),
+         (Rd.kWell, some (.items ((standardizeItems las.well).map (rdExpected o)))),
+         (Rd.kCurves, some (.items (las.curves.map (rdExpected o)))),
+         (Rd.kParameter, some (.items ((standardizeItems las.params).map (rdExpected o)))),
+         (Rd.kOther, some (.text (joinWith ['\n'] ((splitlines las.other).map strip))))] ∧
+      st.steer.vers = some version.toList ∧
+      ((∀ it ∈ RH.versionCopy version wrap las, upper it.orig ≠ "DLM".toList) →
+        ∃ steer, Rd.readLines o lines = .ok
+          ⟨[(Rd.kVersion, .items ((RH.versionCopy version wrap las).map (rdExpected o))),
+            (Rd.kWell, .items ((standardizeItems las.well).map (rdExpected o))),
+            (Rd.kCurves, .items (las.curves.map (rdExpected o))),
+            (Rd.kParameter, .items ((standardizeItems las.params).map (rdExpected o))),
+            (Rd.kOther, .text (joinWith ['\n'] ((splitlines las.other).map strip)))], steer, []⟩ ∧
+          steer.vers = some version.toList) := by
+  unfold headerLines at h
+  cases hs : headerSections version wrap las with
+  | error e => rw [hs] at h; cases h
+  | ok r =>
+    obtain ⟨secs, l2⟩ := r
+    rw [hs] at h
+    simp only [Except.ok.injEq, Prod.mk.injEq] at h
+    obtain ⟨h1, h2⟩ := h
+    subst h2
+    obtain ⟨hver, lv, lw, lc, lp, wv, ww, wc, wp, rfl, _⟩ := RH.headerSections_ok version wrap las l2 secs hs
+    -- each section read back on its own (`C03_section`)
+    have hmw' := standardizeItems_orig las.well (fun o => o.head? ≠ some '#' ∧ o.head? ≠ some '~') hmw
+    have hmp' := standardizeItems_orig las.params (fun o => o.head? ≠ some '#' ∧ o.head? ≠ some '~') hmp
+    have rv := C03_section version .version (RH.cvtCase o.mnemonicCase) _ lv (by decide) wv hcv hmv
+    rw [← RH.readSection_version_prov version hver] at rv
+    have rw' := C03_section version .well (RH.cvtCase o.mnemonicCase) _ lw (by decide) ww hcw hmw'
+    have rc := C03_section version .curves (RH.cvtCase o.mnemonicCase) _ lc (by decide) wc hcc hmc
+    have rp := C03_section version .parameter (RH.cvtCase o.mnemonicCase) _ lp (by decide) wp hcp hmp'
+    -- no body line is a title
+    have nv := RH.writeSection_notitle _ _ _ _ wv (fun it hit => NoTitleMnem.of_conf (hcv it hit) (hmv it hit))
+    have nw := RH.writeSection_notitle _ _ _ _ ww (fun it hit => NoTitleMnem.of_conf (hcw it hit) (hmw' it hit))
+    have nc := RH.writeSection_notitle _ _ _ _ wc (fun it hit => NoTitleMnem.of_conf (hcc it hit) (hmc it hit))
+    have np := RH.writeSection_notitle _ _ _ _ wp (fun it hit => NoTitleMnem.of_conf (hcp it hit) (hmp' it hit))
+    have no : ∀ b ∈ splitlines las.other, Rd.isTitle b = false := by
+      intro b hb
+      rw [Rd.isTitle_eq, RH.startsTilde_false_iff]
+      exact ho b hb
+    -- the steering lookup finds the VERS item
+    obtain ⟨x, hx, hxv⟩ := hvers
+    have hlv : (Rd.lookupItem (o.mnemonicCase != .preserve)
+        (((RH.versionCopy version wrap las).map (expected (RH.cvtCase o.mnemonicCase))).map RH.toRd)
+        "VERS".toList).map (·.value) = some version.toList := by
+      rw [RH.lookup_written _ _ _ (Rd.steerKey_nocolon _ _ (by simp [Rd.steerKeys])), hx]
+      simp [Rd.uniq, RH.toRd, expected, hxv]
+    have key := RH.readLines_written o version w lv lw lc lp (splitlines las.other) _ _ _ _ version.toList
+      (RH.sectionOrders_some version hver) nv nw nc np no rv rw' rc rp hlv (RH.classifyVer_written version hver)
+      lines h1.symm
+    have hmm : ∀ items : List WItem, (items.map (expected (RH.cvtCase o.mnemonicCase))).map RH.toRd =
+        items.map (rdExpected o) := by
+      intro items; rw [List.map_map]; rfl
+    simp only [hmm] at key
+    obtain ⟨⟨st, hst, hsec, hvv⟩, hrl⟩ := key
+    refine ⟨st, hst, hsec, hvv, ?_⟩
+    intro hdlm
+    apply hrl
+    intro d hd
+    exfalso
+    rw [← hmm, RH.lookup_written _ _ _ (Rd.steerKey_nocolon _ _ (by simp [Rd.steerKeys]))] at hd
+    have : (RH.versionCopy version wrap las).filter (fun it => Rd.mcmp (o.mnemonicCase != .preserve)
+        (Rd.usefulMn (caseMap (RH.cvtCase o.mnemonicCase) it.orig)) "DLM".toList) = [] := by
+      apply List.filter_eq_nil_iff.mpr
+      intro it hit
+      rw [RH.mcmp_dlm_false o it.orig (hdlm it hit)]
+      simp
+    rw [this] at hd
+    simp [Rd.uniq] at hd
+
+
+/-- the per-section form: under each of the four keys the reader returns exactly the read-back of that section's
+own items, in order -/
+theorem C03_file_section (o : Rd.ReadOpts) (version : String) (wrap : Option Bool) (w : Nat) (las las' : WLas)
+    (lines : List Str) (h : headerLines version wrap w las = .ok (lines, las'))
+    (hcv : ∀ it ∈ RH.versionCopy version wrap las, TextConf .version it)
+    (hcw : ∀ it ∈ standardizeItems las.well, TextConf .well it)
+    (hcc : ∀ it ∈ las.curves, TextConf .curves it)
+    (hcp : ∀ it ∈ standardizeItems las.params, TextConf .parameter it)
+    (hmv : ∀ it ∈ RH.versionCopy version wrap las, it.orig.head? ≠ some '#' ∧ it.orig.head? ≠ some '~')
+    (hmw : ∀ it ∈ las.well, it.orig.head? ≠ some '#' ∧ it.orig.head? ≠ some '~')
+    (hmc : ∀ it ∈ las.curves, it.orig.head? ≠ some '#' ∧ it.orig.head? ≠ some '~')
+    (hmp : ∀ it ∈ las.params, it.orig.head? ≠ some '#' ∧ it.orig.head? ≠ some '~')
+    (hvers : VersOK o version (RH.versionCopy version wrap las))
+    (ho : OtherOK las.other) :
+    ∃ st, Rd.processSections o lines (Rd.findSections lines) Rd.RState.init = .ok st ∧
+      Rd.lookupSec Rd.kVersion st.sections = some (.items ((RH.versionCopy version wrap las).map (rdExpected o))) ∧
+      Rd.lookupSec Rd.kWell st.sections = some (.items ((standardizeItems las.well).map (rdExpected o))) ∧
+      Rd.lookupSec Rd.kCurves st.sections = some (.items (las.curves.map (rdExpected o))) ∧
+      Rd.lookupSec Rd.kParameter st.sections = some (.items ((standardizeItems las.params).map (rdExpected o))) ∧
+      Rd.lookupSec Rd.kOther st.sections = some (.text (joinWith ['\n'] ((splitlines las.other).map strip))) := by
+  obtain ⟨st, hst, hsec, _, _⟩ := C03_file o version wrap w las las' lines h hcv hcw hcc hcp hmv hmw hmc hmp hvers ho
+  refine ⟨st, hst, ?_, ?_, ?_, ?_, ?_⟩ <;> rw [hsec] <;> rfl
+
+/-- the stored ~Other text is the original text when that is in normal form and its lines are stripped -/
+theorem C03_file_other_text (t : Str) (hnf : OtherNF t) (hs : OtherStripped t) :
+    joinWith ['\n'] ((splitlines t).map strip) = t := by
+  have : (splitlines t).map strip = splitlines t := by
+    conv => rhs; rw [← List.map_id (splitlines t)]
+    apply List.map_congr_left
+    intro l hl; exact hs l hl
+  rw [this, C03_other t hnf]
+
+/-! ### the hypotheses on the written ~Version section from hypotheses on `las.version` -/
+
+theorem TextConf.of_text {kind : SecName} {a b : WItem} (h : RH.textOf a = RH.textOf b) (hb : TextConf kind b) :
+    TextConf kind a := by
+  obtain ⟨a1, a2, a3, a4, a5⟩ := a
+  obtain ⟨b1, b2, b3, b4, b5⟩ := b
+  simp only [RH.textOf, Prod.mk.injEq] at h
+  obtain ⟨rfl, rfl, rfl, rfl⟩ := h
+  exact ⟨hb.1, hb.2, hb.3, hb.4, hb.5, hb.6, hb.7, hb.8, hb.9, hb.10, hb.11, hb.12, hb.13, hb.14⟩
+
+theorem conf_wrapItem (b : Bool) : TextConf .version (wrapItem b) := by
+  cases b <;>
+  exact ⟨by decide, by decide, by decide, by decide, by decide, Or.inl rfl, by decide, by decide, by decide,
+    by decide, by decide, (fun h => nomatch h), by decide, by decide⟩
+
+theorem conf_versItem (v : String) (it : WItem) (h : versItem v = some it) : TextConf .version it := by
+  unfold versItem at h
+  split at h
+  · cases h
+    exact ⟨by decide, by decide, by decide, by decide, by decide, Or.inl rfl, by decide, by decide, by decide,
+      by decide, by decide, (fun h => nomatch h), by decide, by decide⟩
+  · split at h
+    · cases h
+      exact ⟨by decide, by decide, by decide, by decide, by decide, Or.inl rfl, by decide, by decide, by decide,
+        by decide, by decide, (fun h => nomatch h), by decide, by decide⟩
+    · cases h
+
+/-- WRAP and VERS are conformant items, and `set_item` changes session mnemonics only: the conditions on the written
+~Version section follow from the same conditions on `las.version` -/
+theorem C03_versionCopy_conf (version : String) (wrap : Option Bool) (las : WLas)
+    (hc : ∀ it ∈ las.version, TextConf .version it)
+    (hm : ∀ it ∈ las.version, it.orig.head? ≠ some '#' ∧ it.orig.head? ≠ some '~') :
+    (∀ it ∈ RH.versionCopy version wrap las, TextConf .version it) ∧
+    (∀ it ∈ RH.versionCopy version wrap las, it.orig.head? ≠ some '#' ∧ it.orig.head? ≠ some '~') := by
+  constructor
+  · intro it hit
+    obtain ⟨y, hy, hye⟩ := RH.versionCopy_mem version wrap las it hit
+    apply TextConf.of_text hye
+    rcases hy with h | ⟨b, rfl⟩ | h
+    · exact hc y h
+    · exact conf_wrapItem b
+    · exact conf_versItem version y h
+  · intro it hit
+    obtain ⟨y, hy, hye⟩ := RH.versionCopy_mem version wrap las it hit
+    have ho : it.orig = y.orig := congrArg (·.1) hye
+    rw [ho]
+    rcases hy with h | ⟨b, rfl⟩ | h
+    · exact hm y h
+    · cases b <;> decide
+    · unfold versItem at h
+      split at h
+      · cases h; decide
+      · split at h
+        · cases h; decide
+        · cases h
+
+
+/-! ### the hypotheses are needed; non-vacuity -/
+
+def exDept : WItem :=
+  ⟨"DEPT".toList, "DEPT".toList, "M".toList, .str "1670.0".toList, "start (depth) \"x\"".toList⟩
+def exVers : WItem := mkWItem "VERS".toList [] (.num "1.2".toList false) "old".toList
+
+/-- `VersOK` is needed: a ~Version section with duplicate VERS items (session mnemonics VERS:1, VERS:2, so
+`version["VERS"] = …` appends a third) is written as three VERS lines; the reader's `"VERS" in section` is then
+False, the provisional version stays 2.0, and the 1.2 ~Well line (description first) is read value-first: value and
+description come back swapped -/
+theorem C03_counterexample_duplicate_vers :
+    let las : WLas := ⟨[{ exVers with session := "VERS:1".toList }, { exVers with session := "VERS:2".toList },
+      wrapItem true], true, [exDept], [], [], []⟩
+    (headerLines "1.2" (some false) 20 las).toOption.map (fun r =>
+      (Rd.readLines ⟨false, .upper⟩ r.1).toOption.map (fun hd =>
+        (hd.steer.vers, Rd.lookupSec Rd.kWell (hd.sections.map fun kv => (kv.1, some kv.2))))) =
+    some (some (none, some (.items
+      [⟨"DEPT".toList, "M".toList, "start (depth) \"x\"".toList, "1670.0".toList⟩]))) := by
+  decide +kernel
+
+/-- `OtherOK` is needed: an ~Other line that starts with '~' is a section title for the reader -/
+theorem C03_counterexample_other_title :
+    let las : WLas := ⟨[exVers, wrapItem true], true, [], [], [], "a\n~b\nc".toList⟩
+    (headerLines "2.0" (some false) 20 las).toOption.map (fun r =>
+      (Rd.processSections ⟨true, .upper⟩ r.1 (Rd.findSections r.1) Rd.RState.init).toOption.map (fun st =>
+        Rd.lookupSec Rd.kOther st.sections)) = some (some (some (.text "a".toList))) := by
+  decide +kernel
+
+/-- the '~' half of `hmark` is needed at file level too: the line of an item named `~X` starts a new section -/
+theorem C03_counterexample_tilde_mnemonic :
+    let it : WItem := ⟨"~X".toList, "~X".toList, "M".toList, .str "1".toList, "d".toList⟩
+    let las : WLas := ⟨[exVers, wrapItem true], true, [exDept, it], [], [], []⟩
+    (headerLines "2.0" (some false) 20 las).toOption.map (fun r =>
+      (Rd.findSections r.1).map (·.2.2)) =
+    some ["~Version -----------".toList, "~Well --------------".toList, "~X  .M      1 : d".toList,
+      "~Curve Information -".toList, "~Params ------------".toList, "~Other -------------".toList] := by
+  decide +kernel
+
+/-- a LASFile header that satisfies every hypothesis of `C03_file`, written as version 1.2 (description-first ~Well
+lines) and read back with `mnemonic_case="upper"` -/
+example :
+    let las : WLas := ⟨[exVers, wrapItem true], true, [exDept], [exDept], [exDept], "hello\nworld".toList⟩
+    ∃ lines las', headerLines "1.2" (some false) 20 las = .ok (lines, las') ∧
+      ∃ steer, Rd.readLines ⟨false, .upper⟩ lines = .ok
+        ⟨[(Rd.kVersion, .items ((RH.versionCopy "1.2" (some false) las).map (rdExpected ⟨false, .upper⟩))),
+          (Rd.kWell, .items [⟨"DEPT".toList, "M".toList, "1670.0".toList, "start (depth) \"x\"".toList⟩]),
+          (Rd.kCurves, .items [⟨"DEPT".toList, "M".toList, "1670.0".toList, "start (depth) \"x\"".toList⟩]),
+          (Rd.kParameter, .items [⟨"DEPT".toList, "M".toList, "1670.0".toList, "start (depth) \"x\"".toList⟩]),
+          (Rd.kOther, .text "hello\nworld".toList)], steer, []⟩ ∧ steer.vers = some "1.2".toList := by
+  intro las
+  have hc : ∀ kind, ∀ it ∈ [exDept], TextConf kind it := by
+    intro kind it hit
+    have : it = exDept := by simpa using hit
+    subst this; exact C03_example_conf kind
+  have hm : ∀ it ∈ [exDept], it.orig.head? ≠ some '#' ∧ it.orig.head? ≠ some '~' := by
+    intro it hit
+    have : it = exDept := by simpa using hit
+    subst this; decide
+  have hvc : ∀ it ∈ las.version, TextConf .version it := by
+    intro it hit
+    have : it = exVers ∨ it = wrapItem true := by simpa [las] using hit
+    rcases this with rfl | rfl
+    · exact ⟨by decide, by decide, by decide, by decide, by decide, Or.inl rfl, by decide, by decide, by decide,
+        by decide, by decide, (fun h => nomatch h), by decide, by decide⟩
+    · exact conf_wrapItem true
+  have hvm : ∀ it ∈ las.version, it.orig.head? ≠ some '#' ∧ it.orig.head? ≠ some '~' := by
+    intro it hit
+    have : it = exVers ∨ it = wrapItem true := by simpa [las] using hit
+    rcases this with rfl | rfl <;> decide
+  obtain ⟨hcv, hmv⟩ := C03_versionCopy_conf "1.2" (some false) las hvc hvm
+  have hsome : (headerLines "1.2" (some false) 20 las).toOption.isSome = true := by decide +kernel
+  cases hl : headerLines "1.2" (some false) 20 las with
+  | error e => rw [hl] at hsome; cases hsome
+  | ok r =>
+  obtain ⟨lines, las'⟩ := r
+  obtain ⟨st, _, _, _, hr⟩ := C03_file ⟨false, .upper⟩ "1.2" (some false) 20 las las' lines hl hcv
+    (hc .well) (hc .curves) (hc .parameter) hmv hm hm hm
+    ⟨mkWItem "VERS".toList [] (.num "1.2".toList false) "CWLS LOG ASCII STANDARD - VERSION 1.2".toList,
+      by decide +kernel, by decide⟩
+    (show ∀ l ∈ splitlines las.other, (strip l).head? ≠ some '~' by decide +kernel)
+  obtain ⟨steer, h1, h2⟩ := hr (by decide +kernel)
+  exact ⟨lines, las', rfl, steer, h1, h2⟩
+
+#print axioms NoTitleMnem.of_conf
+#print axioms standardizeItems_orig
+#print axioms C03_written_document_wellformed
+#print axioms C03_rd_item_eq_wr_item
+#print axioms C03_rd_written_line
+#print axioms C03_file
+#print axioms C03_file_section
+#print axioms C03_file_other_text
+#print axioms TextConf.of_text
+#print axioms conf_wrapItem
+#print axioms conf_versItem
+#print axioms C03_versionCopy_conf
+#print axioms C03_counterexample_duplicate_vers
+#print axioms C03_counterexample_other_title
+#print axioms C03_counterexample_tilde_mnemonic
 
 end Lasio.Wr
